@@ -116,3 +116,19 @@ impl HeaderMap {
         self.inner.remove(hash)
     }
 }
+
+#[cfg(feature = "verif-hooks")]
+impl HeaderMap {
+    /// verif hook: one synchronous spill step (what the 5 s timer task runs)
+    pub fn verif_limit_memory(&self) {
+        self.inner.limit_memory()
+    }
+
+    /// verif hook, read-only: (key is in the memory tier, key is in the backend tier)
+    pub fn verif_tiers(&self, hash: &Byte32) -> (bool, bool) {
+        (
+            self.inner.memory.contains_key(hash),
+            self.inner.backend.contains_key(hash),
+        )
+    }
+}
